@@ -207,6 +207,13 @@ class StepOps:
             except Exception:  # noqa: BLE001
                 return UNKNOWN
             return ("slice", sl.start, sl.stop, sl.step)
+        if last == "map" and self._resolved_kind(node.func) in ("builtin", "stdlib") and len(node.args) == 2 and not node.keywords:
+            # ``map(aiter, iterables)``: the library's adapter applied to every element (an iterator object stays itself)
+            if self._resolved(node.args[0]) in ("aiter", "iter") and self._resolved_kind(node.args[0]) == "lib":
+                el = self._elements(args[1], env) if len(args) > 1 else None
+                if el is not None and all(self._is_iter(x) for x in el):
+                    return ("SEQ", tuple(el))
+            return UNKNOWN
         if last in ("list", "tuple"):
             if not node.args:
                 return self._new(env, ()) if last == "list" else ("SEQ", ())
@@ -568,6 +575,7 @@ def zip_longest_table(ctx, rid: str, consumption: bool = True) -> None:
     if va is None or len(fill) != 1:
         raise AnalysisError("zip_longest signature changed (anchor moved)")
     bad = undecided = 0
+    prefer_objects = False
     for slots, lengths in cells():
         ctx.count("zip_longest_cells")
         ops = StepOps(ctx, u, lengths)
@@ -577,7 +585,7 @@ def zip_longest_table(ctx, rid: str, consumption: bool = True) -> None:
                                                  coroutines=True))
         cell = f"zip_longest({', '.join('it%d' % s for s in slots)}) with " + ", ".join(f"len(it{k})={n}" for k, n in lengths.items())
         try:
-            outs = machine.run(env)
+            outs = machine.run(env) if not prefer_objects else []
         except AnalysisError:
             outs = []
             if not machine.forked:
@@ -588,6 +596,18 @@ def zip_longest_table(ctx, rid: str, consumption: bool = True) -> None:
                     ctx.fail(rid, real, "zip_longest", f"[{cell}] the evaluation does not reach the end of the generator: "
                              "zip_longest keeps running where itertools.zip_longest stops")
                 continue
+        if len(outs) != 1:
+            # the state of the run may live in an object of a private class: once more on the object model
+            from . import objmodel
+            ops2 = objmodel.make_ops(ctx, u, lengths)
+            try:
+                outs2 = Machine(cfg, ops2, max_steps=6000, resolver=ops2.resolver).run(
+                    {"@lists": {}, "@heap": {}, "@gens": {}, va: ("SEQ", tuple(("IT", s) for s in slots)), fill[0]: FILL})
+            except AnalysisError:
+                outs2 = []
+            if len(outs2) == 1 and not ops2.undecided and not outs2[0].env.get("@undecided"):
+                outs = outs2
+                prefer_objects = True  # (this tree keeps the state of a run in an object: go there first from now on)
         if len(outs) != 1:
             undecided += 1
             continue
